@@ -44,6 +44,13 @@ def gen_catalog(rng, loaded=True):
             e += "," + "+".join(recs)
         entries.append(e)
         names.append((nm, cl))
+        if rng.random() < 0.12:
+            # a configuration change: Catalog::remove of an entry inserted so far (often the parent or the child of a
+            # nested pair: the removal must not disturb the other), or of a name that was never inserted
+            rn, rc = rng.choice(names) if rng.random() < 0.8 else (rng.choice(ZONE_NAMES), rng.choice([1, 3, 7]))
+            if rng.random() < 0.2:
+                rn = [l.swapcase() for l in rn]
+            entries.append(f"{rc},{hx(enc_name(rn))},R")
     return ";".join(entries), names
 
 
@@ -155,6 +162,8 @@ def gen_clean_case(rng):
     while True:
         cat, names = gen_catalog(rng, True)
         loaded = [e for e in cat.split(";") if e != "-" and e.split(",")[2] == "L"] if cat != "-" else []
+        removed = {(e.split(",")[0], e.split(",")[1].lower()) for e in cat.split(";") if e != "-" and e.split(",")[2] == "R"}
+        loaded = [e for e in loaded if (e.split(",")[0], e.split(",")[1].lower()) not in removed]
         if loaded:
             break
     e = rng.choice(loaded).split(",")
@@ -455,7 +464,8 @@ def oracle_c09(case, impl, oracle):
 
 
 RULE = ("seeded requests from an independent Python builder against seeded catalogs (0-4 nested entries over {., a., b.a., c.b.a., "
-        "example., sub.example., Example.} in classes IN/CH/7, Loaded/NotYetLoaded/FailedToLoad) and TSIG key sets; header flags incl. "
+        "example., sub.example., Example.} in classes IN/CH/7, Loaded/NotYetLoaded/FailedToLoad, with interleaved Catalog::remove "
+        "operations on parents/children/absent names) and TSIG key sets; header flags incl. "
         "all opcodes and QR; 0/1/2 questions (QNAMEs around the zone names with case variants, occasionally a bare pointer); "
         "answer/authority records incl. misplaced OPT/TSIG; additional sections with ordinary records, OPT (versions, top-bit TTLs, "
         "non-root owners, payload sizes around 512/1232/65535) and TSIG (known/unknown keys and algorithms, 255-octet names, wrong "
